@@ -478,6 +478,7 @@ void loss_family(vh::rng_t& rng, const std::string& id, int& tie_budget)
                 loss->value(T, O, V);
                 loss->error(T, O, E);
                 loss->vgrad(T, O, G);
+                int batch_lines = 0;
                 for (int s = 0; s < n; ++s)
                 {
                     ++g_loss_checks;
@@ -516,9 +517,11 @@ void loss_family(vh::rng_t& rng, const std::string& id, int& tie_budget)
                         const bool same = (kind == lkind::regression) ? std::fabs(want - r.error) <= 1e-12 * (1.0 + std::fabs(want)) : want == r.error;
                         if (!same) fail("error-rule", o.name, o.family, "error=" + vh::hexf(r.error) + " rule=" + vh::hexf(want) + " " + ctx);
                     }
-                    if (k <= 5 && tie_budget > 0 && finite(r.value, r.grad))
+                    // model-tie lines: a few per (alpha, outputs, target pattern) batch, so that every output count and pattern is represented
+                    if (k <= 5 && tie_budget > 0 && batch_lines < (g_thorough ? 3 : 2) && finite(r.value, r.grad))
                     {
                         --tie_budget;
+                        ++batch_lines;
                         out("LV " + id + " " + vh::hexf(alpha) + " | " + fl(tt) + " | " + fl(oo) + " = " + vh::hexf(r.value) + " | " + fl(r.grad) + " | " +
                             vh::hexf(r.error));
                     }
@@ -1000,7 +1003,7 @@ int main(int argc, char** argv)
         int tie_budget_total = 0;
         for (const auto& id : loss_t::all().ids())
         {
-            int tie_budget = g_thorough ? 60 : 16;
+            int tie_budget = g_thorough ? 600 : 160;
             loss_family(rng, id, tie_budget);
             tie_budget_total += tie_budget;
         }
